@@ -46,6 +46,9 @@ CLAIMED = {
  "C07": ("corr-sched", "Lean 4 theorems about get_max_advance on the scheduler model + reply-by-reply correspondence (max_advance is a compared argument of every step call) + taint monitor on implementation traces",
          "Theorems: max_advance <= until, >= current time, = until without triggering ancestors; promise_state: when the step request goes out, every triggering ancestor's earliest unfinished step (in flight or scheduled), delayed by the minimal trigger-path delay, and every step already scheduled for the simulator lie after max_advance (or the window is empty). PARTIAL: the run form (no externally caused step in (t, m] later on) is not a theorem; it is decided by the taint monitor on the implementation traces under random interleavings and by the correspondence.",
          'Same hypotheses as C01 (WFCfg checked by the driver; D7 excluded; non-real-time). Partial: run form of the promise not proved.'),
+ "C03": ("corr-sched", "Lean 4 theorems on the data-flow operations of the model (buffer, merge, cache lookup) + reply-by-reply correspondence (the inputs of every step call are compared) + history-specification monitor on implementation traces",
+         "Theorems (building blocks, all inputs): a pushed value stays buffered exactly until the first step at or after its due time and is removed by it (not lost, not duplicated), is in that step's inputs under its own key, undue or foreign keys are untouched (nothing invented or early), set_data wins over remembered values, persistent memory only updates existing keys, pulled values are the newest cache entry at or before (t - shift). PARTIAL: the refinement of whole runs to the history specification is not a theorem; it is decided by the specification monitor on the implementation (silent on the clean class) and by the correspondence. Five scenario classes are known findings.",
+         "Same hypotheses as C01. Known findings: C03-cache-prune-shift (D8), C03-cache-initial-data (D12), C03-subtier-blind (D14), C03-event-with-init, C03-nonmonotone-output-times; each is replayed on the code on every run. Partial as stated."),
 }
 
 NOT_YET = {
